@@ -117,7 +117,7 @@ def regf(exclude=()):
 
 def tasks():
     mine = [ContractTask(c, regf) for c in CONTRACTS]
-    shared = [t for t in c02.tasks() if t.contract.target.endswith(("Boss.W_received", "Mailbox.N_release_and_accept",
+    shared = [t for t in c02._f_tasks() if t.contract.target.endswith(("Boss.W_received", "Mailbox.N_release_and_accept",
                                                                     "Mailbox.rx_message", "Boss.got_message",
                                                                     "Receive.got_message", "Send._encrypt_and_send"))]
     # get_message() hands the received messages to the application through SequenceObserver and the eventual
@@ -126,7 +126,20 @@ def tasks():
     obs = [t for t in c18._f_tasks() if getattr(t, "contract", None) is not None and
            ("SequenceObserver." in t.contract.target or "EventualQueue." in t.contract.target or
             t.contract.target.endswith(("_DeferredWormhole.received", "_DeferredWormhole.get_message")))]
-    return mine + shared + obs
+    import os
+    from pyvc.mrun import ClusterTask
+    from .mailbox_ready import CLUSTER_READY
+    cl = [] if (not CLUSTER_READY or os.environ.get("VERIF_NO_CLUSTER")) else \
+        [ClusterTask("mailbox-cluster", "props.mailbox", "engine", select_m, "mailbox_history:search")]
+    return mine + shared + obs + cl
+
+
+def select_m(name):
+    """C03's share of the machine-level obligations: a message stays in the re-send set until the server echoes it and is
+    re-submitted on every new connection; each phase is handed on to Order once, with its labels unchanged"""
+    return name.startswith("post:C03:") or name.endswith(":pending-resubmitted") or \
+        name in ("post:C02:forwarded-phase-is-new", "post:C02:forwarded-phase-recorded", "post:C02:processed-never-shrinks",
+                 "post:C02:labels-forwarded-unchanged", "post:C02:own-echo-never-forwarded")
 
 
 TRUSTED = c02.TRUSTED
